@@ -47,6 +47,8 @@ SELFTEST = {
     "selftest::lvalue-argument-modified": {"lvalue-argument-modified"},
     "selftest::result-holds-moved-from-object": {"result-holds-moved-from-object"},
     "selftest::rvalue-element-duplicated": {"rvalue-element-duplicated", "copy-of-rvalue-element"},
+    "selftest::consumed-then-returned": {"result-holds-moved-from-object", "element-lost"},
+    "selftest::moved-twice": {"read-after-move"},
     "selftest::ok": set(),
 }
 
